@@ -178,11 +178,19 @@ class Gen:
             nums.append(SECOND[first][name])
         else:
             v = self.rng.randint(0, 39)
-            written.append((None, v) if self.rng.random() < 0.6 else ('sub-a', v))
+            written.append((None, v) if self.rng.random() < 0.6 else
+                           (self.rng.choice(['sub-a'] + sorted(SECOND.get(first, SECOND[0]))), v))
             nums.append(v)
         while len(nums) < n:
             v = self.rng.choice([0, 1, 127, 128, 840, 8571, 16383, 16384, 113549, 2 ** 31, 2 ** 32 - 1, self.rng.randint(0, 2 ** 32 - 1)])
-            written.append((None, v) if self.rng.random() < 0.6 else ('arc-%d' % len(nums), v))
+            if self.rng.random() < 0.6:
+                written.append((None, v))
+            elif self.rng.random() < 0.4:
+                # name(number) with a name that is well-known elsewhere: the number written is the arc
+                written.append((self.rng.choice(sorted(set(SECOND[0]) | set(SECOND[1]) | set(ROOT_NAMES))), v))
+                self.tags.add('oid-well-known-name-with-number')
+            else:
+                written.append(('arc-%d' % len(nums), v))
             nums.append(v)
         text = ' '.join(('%s(%d)' % (a, b)) if a and b is not None else (a if a else str(b)) for a, b in written)
         return text, nums, written
